@@ -197,7 +197,10 @@ fn source_read_fault(ctx: &mut Ctx) {
             ("cli-stdin", r.outcome, scen::get_file("a.cba").unwrap_or_default(), true)
         }
         _ => {
-            let r = scen::compress_lib_failing(&spec, source.clone(), None, Some(fail_at));
+            // (what kind of error: a plain I/O error, or one of the kinds a wrapped stream reports
+            // -- TLS without close_notify and length-checked bodies say UnexpectedEof)
+            let kind = *gen::t(|t| t.pick(&[std::io::ErrorKind::Other, std::io::ErrorKind::UnexpectedEof, std::io::ErrorKind::ConnectionReset, std::io::ErrorKind::TimedOut, std::io::ErrorKind::BrokenPipe]));
+            let r = scen::compress_lib_failing_with(&spec, source.clone(), None, Some(fail_at), kind);
             simkit::count("fault:SourceReadError");
             ("lib", r.outcome, r.archive, true)
         }
